@@ -2,6 +2,12 @@
 
 use std::os::fd::{AsRawFd, FromRawFd, OwnedFd, RawFd};
 
+/// A failure of the harness itself: never dressed up as a violation or as a pass.
+pub fn harness_fatal(msg: &str) -> ! {
+    eprintln!("HARNESS-ERROR {}: {}", msg, std::io::Error::last_os_error());
+    std::process::exit(2)
+}
+
 pub fn socketpair() -> (OwnedFd, OwnedFd) {
     let mut fds = [0i32; 2];
     let r = unsafe {
@@ -12,7 +18,9 @@ pub fn socketpair() -> (OwnedFd, OwnedFd) {
             fds.as_mut_ptr(),
         )
     };
-    assert_eq!(r, 0, "socketpair failed");
+    if r != 0 {
+        harness_fatal("socketpair failed (fd leak?)");
+    }
     unsafe { (OwnedFd::from_raw_fd(fds[0]), OwnedFd::from_raw_fd(fds[1])) }
 }
 
@@ -20,7 +28,9 @@ pub fn socketpair() -> (OwnedFd, OwnedFd) {
 pub fn pipe() -> (OwnedFd, OwnedFd) {
     let mut fds = [0i32; 2];
     let r = unsafe { libc::pipe2(fds.as_mut_ptr(), libc::O_CLOEXEC | libc::O_NONBLOCK) };
-    assert_eq!(r, 0, "pipe2 failed");
+    if r != 0 {
+        harness_fatal("pipe2 failed (fd leak?)");
+    }
     unsafe { (OwnedFd::from_raw_fd(fds[0]), OwnedFd::from_raw_fd(fds[1])) }
 }
 
